@@ -130,6 +130,8 @@ eps! {
     58, "crypto_secretstream_xchacha20poly1305_init_push (reused State object)", false, true;
     59, "crypto_box_keypair_inplace (reused buffers)", false, true;
     60, "crypto_secretbox_keygen_inplace (reused buffer)", false, true;
+    61, "PwHash::hash(salt 32)", false, true;
+    62, "PwHash::hash(salt 64)", false, true;
 }
 
 pub fn available_eps() -> Vec<u16> {
@@ -269,8 +271,13 @@ impl RngWorld {
                 let salt = decode_salt_field(&s).ok_or_else(|| format!("cannot find the salt field in {:?}", s))?;
                 id(salt)
             }
-            22 | 23 => {
-                let sl = if ep == 22 { 16 } else { 8 + (arg % 57) as usize };
+            22 | 23 | 61 | 62 => {
+                let sl = match ep {
+                    22 => 16,
+                    61 => 32,
+                    62 => 64,
+                    _ => 8 + (arg % 57) as usize,
+                };
                 let cfg = dryoc::pwhash::Config::interactive().with_opslimit(1).with_memlimit(8192).with_salt_length(sl);
                 let h: dryoc::pwhash::VecPwHash = dryoc::pwhash::PwHash::hash(&msg, cfg).map_err(|e| format!("{:?}", e))?;
                 let (_, salt, _) = h.into_parts();
@@ -648,17 +655,16 @@ impl World for RngWorld {
             out.fault("simulated_generator_draw");
             let drawn: Vec<u8> = self.ledger.borrow().draws[before..].concat();
             out.note(&format!("call {} drew {} component {}", info.name, drawn.len(), hex(&co.component[..co.component.len().min(16)])));
-            // 1. the ledger grew by at least the documented number of bytes
-            if drawn.len() < co.min_draw {
-                out.violate(
-                    "C11",
-                    "c11.drew",
-                    site(&[("entry", info.name)]),
-                    format!("{} drew {} bytes from the generator during the call, documented: at least {}", info.name, drawn.len(), co.min_draw),
-                );
+            // The seam's per-call judgement. An entry point that drew fewer bytes than
+            // documented, or whose output is not the documented image of its draw, is an
+            // *anomaly*; it becomes a violation only with sound evidence that the value is
+            // not fresh: a second call returns the same value (or the value is all-zero).
+            // (An implementation may legitimately obtain randomness elsewhere or
+            // post-process its draw; the history oracle still watches it.)
+            let expected: Option<Vec<u8>> = if drawn.len() < co.min_draw {
+                None
             } else {
-                // 2. the random component is (the image of) this call's draw
-                let expected: Vec<u8> = match co.image {
+                Some(match co.image {
                     Image::Identity => drawn[..co.min_draw].to_vec(),
                     Image::BoxKeypair => {
                         let mut v = drawn[..32].to_vec();
@@ -673,13 +679,32 @@ impl World for RngWorld {
                         v
                     }
                     Image::SealedEpk => box_pk_of(&drawn[..32]).to_vec(),
+                })
+            };
+            let anomaly = match &expected {
+                None => Some("drew"),
+                Some(e) if *e != co.component => Some("uses_draw"),
+                _ => None,
+            };
+            if let Some(kind) = anomaly {
+                out.probe(&format!("anomaly.{}", kind));
+                let second = guarded(|| self.call(*ep, *arg));
+                let same = match &second {
+                    Ok(Ok(c2)) => c2.component == co.component,
+                    _ => false,
                 };
-                if expected != co.component {
+                let zero = !co.component.is_empty() && co.component.iter().all(|b| *b == 0);
+                if same || zero {
+                    let what = if kind == "drew" {
+                        format!("{} drew {} bytes from the generator during the call (documented: at least {})", info.name, drawn.len(), co.min_draw)
+                    } else {
+                        format!("the value returned by {} ({}…) is not the image of the {} bytes drawn in this call", info.name, hex(&co.component[..co.component.len().min(16)]), drawn.len())
+                    };
                     out.violate(
                         "C11",
-                        "c11.uses_draw",
+                        if kind == "drew" { "c11.drew" } else { "c11.uses_draw" },
                         site(&[("entry", info.name)]),
-                        format!("the random component returned by {} ({}…) is not the image of the {} bytes drawn in this call ({}…)", info.name, hex(&co.component[..co.component.len().min(16)]), drawn.len(), hex(&expected[..expected.len().min(16)])),
+                        format!("{}, and {}", what, if zero { "the value is all-zero" } else { "the next call returned the same value again" }),
                     );
                 }
             }
